@@ -157,6 +157,18 @@ func (e *Env) invVarsAt(fr *Frame, at *ssa.BasicBlock) map[string]Value {
 // applyAliases binds contract names of renamed locals (see verifyItem) to their new names.
 func (e *Env) applyAliases(vars map[string]Value) {
 	for from, to := range e.aliases {
+		if strings.HasPrefix(to, "#p") {
+			if k := atoi(to[2:]); k < len(e.paramVals) {
+				vars[from] = e.paramVals[k]
+			}
+			continue
+		}
+		if strings.HasPrefix(to, "#r") {
+			if k := atoi(to[2:]); k < len(e.resultVals) {
+				vars[from] = e.resultVals[k]
+			}
+			continue
+		}
 		// "name-1" / "name+1": an integer local shifted by one (a range loop's hidden index is
 		// one less than the counter of the equivalent counting loop)
 		off := ""
@@ -395,10 +407,41 @@ func (w *World) rebindSearch(it *Item, timeoutMs int, aliases map[string]string,
 		return nil
 	}
 	if !hintOnlyName(it, x) {
-		// a name of the specification itself (a renamed parameter or named result): not rebound.
-		// The contract does not record parameter positions, so a binding found by search could
-		// make the contract follow a change that swaps the roles of two parameters.
-		return nil
+		// a name of the specification itself: a renamed parameter or named result. It is bound
+		// by POSITION, using the names recorded when the contract was written
+		// (contract-params.json); never by search, which could make the contract follow a change
+		// that swaps the roles of two parameters.
+		rec := w.recordedParams[it.Pkg+"::"+it.Name]
+		if rec == nil || len(rec["params"]) != len(fn.Params) || len(rec["results"]) != fn.Signature.Results().Len() {
+			return nil
+		}
+		target := ""
+		for k, n := range rec["params"] {
+			if n == x {
+				target = fmt.Sprintf("#p%d", k)
+			}
+		}
+		for k, n := range rec["results"] {
+			if n == x && target == "" {
+				target = fmt.Sprintf("#r%d", k)
+			}
+		}
+		if target == "" {
+			return nil
+		}
+		al := map[string]string{x: target}
+		for k, v := range aliases {
+			al[k] = v
+		}
+		r := w.verifyItemOnce(it, timeoutMs, al)
+		if r.Error != "" {
+			if m2 := unknownIdentRe.FindStringSubmatch(r.Error); m2 != nil && m2[1] != x {
+				return w.rebindSearch(it, timeoutMs, al, r.Error, depth+1)
+			}
+			return nil
+		}
+		r.Loops = append(r.Loops, "contract name "+x+" bound by position to the renamed parameter / result "+target)
+		return r
 	}
 	used := map[string]bool{}
 	for _, t := range aliases {
@@ -741,6 +784,7 @@ func (e *Env) verifyFunc(it *Item) {
 		fvals = append(fvals, v)
 		vars[fv.Name()] = v
 	}
+	e.paramVals = args
 	e.applyAliases(vars)
 	entry := st.clone()
 	ctx := &SpecCtx{e: e, st: entry, vars: vars, pkg: pkg}
@@ -839,6 +883,7 @@ func (e *Env) verifyFunc(it *Item) {
 			pv[k] = v
 		}
 		bindResults(pv, fn, site.vals)
+		e.resultVals = site.vals
 		e.applyAliases(pv)
 		fr.specVars = pv
 		e.cur = fr
